@@ -102,12 +102,15 @@ func (srv *Session) consumeSingleCommand(ctx context.Context, reader *buffer.Rea
 		return nil
 	}
 
+	verifPoint("cmd.admitted")
 	// NOTE: we increase the wait group by one in order to make sure that idle
 	// connections are not blocking a close.
 	srv.wg.Add(1)
+	verifPoint("cmd.registered")
 	srv.logger.Debug("<- incoming command", slog.Int("length", length), slog.String("type", t.String()))
 	err = srv.handleCommand(ctx, conn, t, reader, writer)
 	srv.wg.Done()
+	verifPoint("cmd.done")
 	if errors.Is(err, io.EOF) {
 		return nil
 	}
